@@ -21,13 +21,14 @@ INJECT = ['?', '\x80', '\x00', '\t', '\x7f', 'é', '?']
 TEMPLATES = [
     ('OpenSSH', 'OpenSSH_%s%s', ['3.9', '7.4', '8.9', '9.6', '10.0', '10.12'], ['', 'p1', 'p2-hpn14v', ' Debian-10']),
     ('Dropbear SSH', 'dropbear_%s%s', ['0.53', '2016.74', '2020.81', '2024.85'], ['', '_test1']),
-    ('libssh', 'libssh-%s%s', ['0.5.3', '0.7.0', '0.9.6', '0.10.5'], ['']),
-    ('libssh', 'libssh_%s%s', ['0.9.6', '0.10.5'], ['']),
+    ('libssh', 'libssh-%s%s', ['0.5.3', '0.7.0', '0.9.6', '0.10.5'], ['', '-rc1', '_git']),
+    ('libssh', 'libssh_%s%s', ['0.9.6', '0.10.5'], ['', '-rc1']),
     ('TinySSH', 'tinyssh_%s%s', ['20190101', 'noversion'], ['']),
     ('PuTTY', 'PuTTY_Release_%s%s', ['0.64', '0.80'], ['']),
-    ('RomSShell', 'RomSShell_%s%s', ['4.62', '5.40'], ['']),
-    ('IOS/PIX sshd', 'Cisco-%s%s', ['1.25', '2.0'], ['']),
-    ('iLO (Integrated Lights-Out) sshd', 'mpSSH_%s%s', ['0.2.1'], ['']),
+    # (the version is what follows the product name up to its last digit; anything behind it - a patch level, a build tag - leaves both as they are)
+    ('RomSShell', 'RomSShell_%s%s', ['4.62', '5.40'], ['', 'p1', '-beta', '_b7']),
+    ('IOS/PIX sshd', 'Cisco-%s%s', ['1.25', '2.0'], ['', 'p1', '-beta', '_b7', '-K9']),
+    ('iLO (Integrated Lights-Out) sshd', 'mpSSH_%s%s', ['0.2.1'], ['', 'p1', '-beta', '_b7']),
 ]
 
 
@@ -327,6 +328,40 @@ def work_product_nonconforming(chunk, st):
     st.sample({'product_nonconforming': [chunk[0][1], repr(chunk[0][2]), chunk[0][3]]}, cap=3)
 
 
+# ---- identification strings that repeat the "SSH-<major>.<minor>-" prefix (old OpenSSH / Dropbear builds behind a proxy did): the
+# protocol reported is the first prefix's whenever that is also the lowest one listed (where the RFC's reading of the line and the
+# tool's "lowest version announced" agree), the software is what follows the prefixes; directly and through a server audit
+def multi_prefix_check(st):
+    import itertools as _it
+    vers = [(1, 3), (1, 5), (1, 99), (2, 0)]
+    n = 0
+    for k in (2, 3):
+        for seq in _it.product(vers, repeat=k):
+            if seq[0] != min(seq):
+                continue
+            for sw, cm in (('OpenSSH_3.9p1', None), ('x', 'c d')):
+                line = ''.join('SSH-%d.%d-' % v for v in seq) + sw + ((' ' + cm) if cm else '')
+                b = Banner.parse(line)
+                n += 1
+                st.evaluations += 1
+                st.states.add(hash(('multi-prefix', line)))
+                st.nontrivial.add(hash(('multi-prefix', line)))
+                if b is None:
+                    st.violation('multi-prefix:not-recognised', {'line': line})
+                elif tuple(b.protocol) != seq[0] or b.software != sw or (b.comments or None) != cm:
+                    st.violation('multi-prefix:parts-differ', {'line': line, 'protocol': list(b.protocol), 'software': b.software, 'comments': b.comments, 'expected_protocol': list(seq[0])})
+                if seq[0][0] == 2 or seq[0] == (1, 99):
+                    res = H.audit(P.Server(banner=line.encode()), opts=['-n', '-j', '--skip-rate-test'])
+                    st.execution(res.world, outcome=('multi-prefix', res.status), root=('multi-prefix', line), nontrivial=('multi-prefix', line))
+                    try:
+                        jb = json.loads(res.stdout).get('banner', {})
+                    except ValueError:
+                        jb = {}
+                    if jb.get('protocol') != '%d.%d' % seq[0] or jb.get('software') != sw:
+                        st.violation('multi-prefix:cli-json-differs', {'line': line, 'got': jb, 'status': res.status})
+    st.sample({'multi_prefix_lines': n, 'example': 'SSH-1.5-SSH-1.99-OpenSSH_3.9p1'}, cap=1)
+
+
 def twin_tasks():
     out = []
     for base, pos in (('SSH-2.0-OpenSSH_9.6', 12), ('SSH-2.0-build7 note', 13), ('SSH-1.99-dropbear_2020.81', 20), ('SSH-2.0-x c', 10)):
@@ -347,6 +382,7 @@ def run(tier, seed):
     par.pmap(work_cli, cli, stats=st)
     par.pmap(work_twins, twin_tasks(), stats=st, chunk=4)
     par.pmap(work_product_nonconforming, product_nonconforming_tasks(), stats=st, chunk=8)
+    multi_prefix_check(st)
     from props import delivery as _DL
     par.pmap(_DL.work, _DL.tasks(tier), extra=(('banner',),), stats=st, chunk=12)
     vcases = []
@@ -363,7 +399,7 @@ def run(tier, seed):
         rule='banner grammar to a bound: protocol %s x software tokens of length 1..%d over %s x comments %s with 1-3 space separators and trailing '
              'spaces; non-printable/non-ASCII characters %r injected at every position of short lines; product templates x versions x patches; '
              'socket path: %d header-line prefixes (incl. near-misses) x %d banners x CRLF/LF delivered whole and split at every%s offset; CLI text '
-             'and JSON for every prefix x banner x ending; pairs of targets in one invocation whose banners differ only in (non-printable character | literal "?") at one position, both orders; every product template with a non-printable character in its comment: same product, version and recommendations as with a literal "?"; non-trivial = lines inside the grammar' % (
+             'and JSON for every prefix x banner x ending; pairs of targets in one invocation whose banners differ only in (non-printable character | literal "?") at one position, both orders; every product template with a non-printable character in its comment: same product, version and recommendations as with a literal "?"; lines repeating the SSH-x.y- prefix two or three times (first prefix the lowest): protocol, software, comments; non-trivial = lines inside the grammar' % (
                  PROTOS, 2 if tier == 'quick' else 3, TOKCH, COMMENTS, INJECT, len(PRELINES), len(SOCK_BANNERS), ' 3rd' if tier == 'quick' else ''),
         assumptions=['reference parser refmodels/banner.py written from RFC 4253 section 4.2', 'comments compared modulo collapsing of runs of blanks'],
         exhaustive=True, traces_validated=validated)
